@@ -139,6 +139,18 @@ func checkC06(c *Ctx) {
 		}
 	}
 	c.borrowKinds("C10", func() { c.c10ExpireAt() }, "R06.1", "backends.Write:stored-expiry", []string{"R10.3"}, "stored-E", "no-ttl", "expiry-value")
+	// … and the TTL a Write applies is the effective TTL with the documented jitter T + J·T·(r − 1/2), one draw of the documented
+	// source, for negative TTLs too ("stored as already expired") (C10 R10.2)
+	c.borrowKinds("C10", func() { c.c10Jitter() }, "R06.1", "Trait.TTL:jitter", []string{"R10.2"}, "jitter-formula", "rand-count", "jitter-untested", "jitter-when-disabled")
+	// "the temporary re-store of a stale value uses UpdateTTL": an acceptable stale value IS re-stored before the build, by a backend
+	// Write under the UpdateTTL cell (C03 R03.1) — a refresh by another backend operation (prolonging the old expiry) can leave a
+	// value that expired long ago expired
+	for _, sib := range siblings {
+		if fo := c.failover(sib); fo.Err == nil {
+			fo := fo
+			c.borrowKinds("C03", func() { c.c03Sibling(fo) }, "R06.2", sib+".Get:stale-value-re-stored", []string{"R03.1"}, "an-acceptable-stale-value-must")
+		}
+	}
 	c.c06WithTTL()
 	c.c06Accessors()
 	c.c06Detached()
@@ -150,6 +162,34 @@ func (c *Ctx) c06Sibling(fo *FO) {
 	r := c.R
 	cons := fo.Name + ".Get"
 	nBuild, nRefresh, nBg := 0, 0, 0
+	// "neither cancelled nor deadlined by it": Get and the helpers of the frontend never consult the cancellation of a context
+	// themselves (ctx.Done / ctx.Err / ctx.Deadline) — what happens to a build is decided by the builder alone. A scheduler that
+	// waits on the caller's Done channel drops the background update of a caller that went away
+	if fo.Decl != nil {
+		info := c.Pkg.TypesInfo
+		for _, bd := range c.reachBodies(fo.Decl, 3) {
+			if bfn, _ := info.Defs[bd.Name].(*types.Func); bfn == nil || c.isNewAPI(bfn) {
+				continue
+			}
+			if !frontendFiles(bd.Pos()) {
+				continue
+			}
+			ast.Inspect(bd.Body, func(x ast.Node) bool {
+				call, ok := x.(*ast.CallExpr)
+				if !ok {
+					return true
+				}
+				sel, ok := ast.Unparen(call.Fun).(*ast.SelectorExpr)
+				if !ok || sel.Sel.Name != "Done" && sel.Sel.Name != "Err" && sel.Sel.Name != "Deadline" {
+					return true
+				}
+				if t := info.TypeOf(sel.X); t != nil && types.TypeString(t, nil) == "context.Context" {
+					r.Bad("R06.4", cons, "context-cancellation-consulted", c.Pos(call.Pos()), "the frontend consults "+sel.Sel.Name+"() of a context itself ("+c.fnNameOf(bd)+"): whether a (background) build runs then depends on the caller's cancellation or deadline", nil)
+				}
+				return true
+			})
+		}
+	}
 	for _, p := range fo.Paths {
 		seqs, _ := fullSeqs(p)
 		for si, seq := range seqs {
